@@ -283,6 +283,9 @@ func Drive(t *testing.T, c *Check) {
 	if tier == "" {
 		tier = "quick"
 	}
+	if lp := os.Getenv("VERIF_LIBPATH"); lp != "" {
+		c.LibPaths = append(c.LibPaths, lp)
+	}
 	if c.Race {
 		gr := os.Getenv("GORACE")
 		for _, f := range strings.Fields(gr) {
